@@ -303,14 +303,20 @@ func (f *VFramed) VSendReply(tag string, size int, m unixsocket.Msg) error {
 	for i := range pad {
 		pad[i] = 'p'
 	}
-	return f.s.SendMsg(reply{BatchErrors: []string{tag, string(pad)}}, m)
+	// (the payload travels in the error text: the field least likely to change its type in a refactoring)
+	return f.s.SendMsg(reply{Error: &errorReply{Msg: tag + "\x00" + string(pad)}}, m)
 }
 
 func (f *VFramed) VRecvReply() (tag string, size int, m unixsocket.Msg, err error) {
 	var r reply
 	m, err = f.s.RecvMsg(&r)
-	if err == nil && len(r.BatchErrors) == 2 {
-		tag, size = r.BatchErrors[0], len(r.BatchErrors[1])
+	if err == nil && r.Error != nil {
+		for i := 0; i < len(r.Error.Msg); i++ {
+			if r.Error.Msg[i] == 0 {
+				tag, size = r.Error.Msg[:i], len(r.Error.Msg)-i-1
+				break
+			}
+		}
 	}
 	return
 }
